@@ -23,8 +23,16 @@ def mk_arr(s):
     return numpy.ma.array(d, mask=numpy.array(s['mask'], dtype=bool).reshape(s['shape']))
 
 
+HOLDERS = []
+
+
 def mk_cmd(name, s, results):
+    if s['t'] == 'same':
+        c = HOLDERS[s['holder']]
+        HOLDERS.append(c)
+        return c
     c = Command(name)
+    HOLDERS.append(c)
     if s.get('fuzzy'):
         c.is_fuzzy = True
     c.is_finished = True
@@ -37,7 +45,7 @@ def mk_cmd(name, s, results):
 
 def build(name, s, results):
     t = s['t']
-    if t in ('arr', 'ref'):
+    if t in ('arr', 'ref', 'same'):
         return mk_cmd(name, s, results)
     if t == 'arrlist':
         return [mk_cmd('%s%d' % (name, i), x, results) for i, x in enumerate(s['items'])]
@@ -68,13 +76,9 @@ def _num(x):
 def run_one(req, results):
     mod = importlib.import_module(req['module'])
     cls = getattr(mod, req['cls'])
+    del HOLDERS[:]
     kwargs = {k: build(k, v, results) for k, v in req['kwargs'].items()}
-    holders = []
-    for k, v in kwargs.items():
-        if isinstance(v, Command):
-            holders.append(v)
-        elif isinstance(v, list) and v and isinstance(v[0], Command):
-            holders.extend(v)
+    holders = list(HOLDERS)
     r = None
     try:
         with numpy.errstate(all='ignore'):
@@ -99,9 +103,39 @@ def run_one(req, results):
     return out
 
 
+def run_program(req):
+    """{"program": source, "inputs": {name: arrspec}, "libraries": [...]} -> per-command result dumps"""
+    import mpvinputs
+    from mpilot.program import Program
+    mpvinputs.TABLE.clear()
+    for name, spec in req['inputs'].items():
+        mpvinputs.TABLE[name] = mk_arr(spec)
+    try:
+        with numpy.errstate(all='ignore'):
+            p = Program.from_source(req['program'], libraries=tuple(req['libraries']))
+            p.run()
+        return {'ok': True, 'results': {name: dump(c._result) for name, c in p.commands.items()},
+                'inputs_after': {name: dump(a) for name, a in mpvinputs.TABLE.items()}}
+    except Exception as e:
+        try:
+            msg = str(e)[:300]
+        except Exception:
+            msg = '<str failed>'
+        return {'ok': False, 'exc': type(e).__name__, 'mpilot': isinstance(e, MPilotError), 'msg': msg,
+                'inner': type(getattr(e, 'exc', None)).__name__ if getattr(e, 'exc', None) is not None else None}
+
+
 def main():
     for line in sys.stdin:
         req = json.loads(line)
+        if 'program' in req:
+            try:
+                out = run_program(req)
+            except Exception as e:
+                out = {'ok': False, 'exc': 'WORKER:' + type(e).__name__, 'mpilot': False, 'msg': str(e)[:300]}
+            sys.stdout.write(json.dumps(out) + '\n')
+            sys.stdout.flush()
+            continue
         results = []
         outs = []
         for r in req['runs']:
